@@ -19,6 +19,82 @@
     }
     fn kind_of(x: u8) -> io::ErrorKind { match x { 0 => io::ErrorKind::BrokenPipe, 1 => io::ErrorKind::Other, _ => io::ErrorKind::WouldBlock } }
 
+    // ---- the adapter's single-step contract, for ANY string and ANY character (complete: no bound on the length) -------
+    // The sink is a mock whose `write_all` IS its contract (std's provided method is the trusted callee: "delivers the
+    // whole buffer in order or returns the writer's error"): it records the pointer / length it was handed and answers
+    // with a symbolic result. The step contract below plus induction over the sequence of writes (each step leaves
+    // `delivered` = the concatenation of the accepted buffers, and the first failure is stored) is the adapter half of
+    // the property; the write_wrapper_delivery* obligations check the same thing through the real write_all on
+    // bounded sequences.
+    struct StepSink { calls: usize, raw_write_calls: usize, ptr: *const u8, len: usize, first: [u8; 4], fail: bool, kind: io::ErrorKind, read_bytes: bool }
+    impl io::Write for StepSink {
+        fn write(&mut self, buf: &[u8]) -> io::Result<usize> { self.raw_write_calls += 1; Ok(buf.len()) }
+        fn write_all(&mut self, buf: &[u8]) -> io::Result<()> {
+            self.calls += 1; self.ptr = buf.as_ptr(); self.len = buf.len();
+            if self.read_bytes { let mut i = 0; while i < 4 && i < buf.len() { self.first[i] = buf[i]; i += 1; } }
+            if self.fail { Err(io::Error::from(self.kind)) } else { Ok(()) }
+        }
+        fn flush(&mut self) -> io::Result<()> { Ok(()) }
+    }
+    fn step_sink(fail: bool, kk: u8, read_bytes: bool) -> StepSink {
+        StepSink { calls: 0, raw_write_calls: 0, ptr: std::ptr::null(), len: 0, first: [0; 4], fail, kind: kind_of(kk), read_bytes }
+    }
+
+//# ob name=write_str_step_contract fn=output::WriteWrapper::write_str kind=complete plumbing=true fallback=write_wrapper_delivery2,write_wrapper_short_writes stmt="for EVERY string (any address, any length up to isize::MAX; the bytes are never read), every prior state of the stored error and every outcome of the sink: write_str hands exactly the argument's byte range to the sink's write_all exactly once and calls nothing else on the sink; if write_all succeeds the result is Ok and the stored error is unchanged; if it fails the result is fmt::Error and the stored error is the sink's own error (same kind)"
+    #[kani::proof]
+    #[kani::unwind(6)]
+    fn write_str_step_contract() {
+        let addr: usize = kani::any(); let len: usize = kani::any();
+        kani::assume(addr != 0 && len <= isize::MAX as usize && addr <= usize::MAX - len);
+        // a string slice that is never dereferenced: the contract is about which range is handed on, for every range
+        let s: &str = unsafe { std::mem::transmute::<(usize, usize), &str>((addr, len)) };
+        assert!(s.as_ptr() as usize == addr && s.len() == len); // the fat-pointer layout assumed by the line above
+        let fail: bool = kani::any(); let kk: u8 = kani::any(); kani::assume(kk <= 2);
+        let had: bool = kani::any(); let hk: u8 = kani::any(); kani::assume(hk <= 2);
+        let mut w = WriteWrapper { w: step_sink(fail, kk, false), err: if had { Some(io::Error::from(kind_of(hk))) } else { None } };
+        let r = fmt::Write::write_str(&mut w, s).is_ok();
+        assert!(w.w.calls == 1 && w.w.raw_write_calls == 0);
+        assert!(w.w.ptr as usize == addr && w.w.len == len);
+        assert!(r == !fail);
+        if fail {
+            assert!(w.err.is_some());
+            if let Some(e) = &w.err { assert!(e.kind() == kind_of(kk)); }
+        } else {
+            assert!(w.err.is_some() == had);
+            if let Some(e) = &w.err { assert!(e.kind() == kind_of(hk)); }
+        }
+        kani::cover!(fail && !had, "first failure is stored");
+        kani::cover!(!fail && had, "success keeps an earlier error");
+        kani::cover!(len > 1 << 40, "long string");
+        std::mem::forget(w);
+    }
+
+//# ob name=write_char_step_contract fn=output::WriteWrapper::write_char kind=complete plumbing=true fallback=write_wrapper_delivery2,write_wrapper_short_writes stmt="for EVERY char and every outcome of the sink: write_char hands exactly the UTF-8 encoding of the character (1-4 bytes) to the sink's write_all exactly once; Ok / fmt::Error and the stored error as for write_str"
+    #[kani::proof]
+    #[kani::unwind(6)]
+    fn write_char_step_contract() {
+        let c: char = kani::any();
+        let fail: bool = kani::any(); let kk: u8 = kani::any(); kani::assume(kk <= 2);
+        let mut w = WriteWrapper { w: step_sink(fail, kk, true), err: None };
+        let r = fmt::Write::write_char(&mut w, c).is_ok();
+        assert!(w.w.calls == 1 && w.w.raw_write_calls == 0);
+        // independent encoder (RFC 3629)
+        let u = c as u32;
+        let (n, e): (usize, [u8; 4]) = if u < 0x80 { (1, [u as u8, 0, 0, 0]) }
+            else if u < 0x800 { (2, [0xC0 | (u >> 6) as u8, 0x80 | (u & 0x3F) as u8, 0, 0]) }
+            else if u < 0x10000 { (3, [0xE0 | (u >> 12) as u8, 0x80 | ((u >> 6) & 0x3F) as u8, 0x80 | (u & 0x3F) as u8, 0]) }
+            else { (4, [0xF0 | (u >> 18) as u8, 0x80 | ((u >> 12) & 0x3F) as u8, 0x80 | ((u >> 6) & 0x3F) as u8, 0x80 | (u & 0x3F) as u8]) };
+        assert!(w.w.len == n);
+        let mut i = 0;
+        while i < n { assert!(w.w.first[i] == e[i]); i += 1; }
+        assert!(r == !fail);
+        assert!(w.err.is_some() == fail);
+        if let Some(x) = &w.err { assert!(x.kind() == kind_of(kk)); }
+        kani::cover!(u >= 0x10000 && fail, "failing write of a 4-byte character");
+        kani::cover!(u < 0x80 && !fail, "ASCII");
+        std::mem::forget(w);
+    }
+
 //# ob name=write_wrapper_delivery2 fn=output::WriteWrapper::{write_str,write_char} kind=bounded bound="sequences of 2 writes (write_str, write_char) x failure at call k in 0..=2 x error kinds {BrokenPipe, Other, WouldBlock} (the 3-write sequence is the thorough-tier obligation write_wrapper_delivery)" stmt="before the failure the bytes reach the sink in order and exactly once; at the failure the sink's error is stored with its kind and fmt::Error is returned; nothing is written afterwards"
     #[kani::proof]
     #[kani::unwind(10)]
